@@ -4,6 +4,7 @@ Property theorems only; helper lemmas are in KlogV/Lemmas/Lines.lean.
 All statements are for every byte string (no validity or encoding hypothesis).
 -/
 import KlogV.Lemmas.Lines
+import KlogV.Props.Tables
 namespace KlogV.C08
 
 /-- Splitting a text into lines and writing each line out again (text plus line ending)
